@@ -65,3 +65,60 @@
         kani::cover!(off < n && b[off] >= 0x80, "multi-byte character");
         std::mem::forget(err); std::mem::forget(t);
     }
+
+    // The position invariant of the whole tokenizer (every function that moves the offset, not only `advance`): BOUNDED
+    // native stand-in. The Verus unit proves that `advance` keeps the invariant for sources of any length; that every
+    // consumer (eat_string, eat_number, eat_identifier, operators, raw blocks, whitespace handling) moves the position
+    // through it is checked here on the real tokenizer for every short source.
+//# ob name=token_positions_native role=native_bounded fn=compiler::lexer::Tokenizer::{next_token,tokenize_root,tokenize_block_or_var,eat_string,eat_number,eat_identifier,skip_whitespace,handle_raw_tag} kind=bounded bound="every source made of 1..=4 fragments from a 21-fragment alphabet (tag, comment and raw delimiters, both string quotes, line feed, CR LF, identifier, number, operators, dot, backslash, a 2-byte character, the 3-byte line separator U+2028, space): 204204 sources x {template mode, expression mode} x {default, trim_blocks+lstrip_blocks}" stmt="after every token (and at every lexer error) the tokenizer's line is 1 + the number of line feeds before its offset and its column the number of characters since the last of them; every span returned with a token starts and ends on character boundaries inside the source, start <= end, and its start / end line and column are those of the source text at the start / end offset - so the line recorded for any token or lexer error is the line of the text it points at"
+    fn token_positions_native() {
+        fn pos_of(src: &str, off: usize) -> (u16, u16) {
+            let pre = &src[..off];
+            let line = 1 + pre.matches('\n').count();
+            let col = match pre.rfind('\n') { Some(i) => pre[i + 1..].chars().count(), None => pre.chars().count() };
+            (line.min(65535) as u16, col.min(65535) as u16)
+        }
+        let frags = ["{{", "}}", "{%", "%}", "\"", "'", "\n", "\r\n", "ab", "12", "+", ".", "\\", "é", "\u{2028}", " ", "{% raw %}", "{% endraw %}", "{#", "#}", "-"];
+        let n = frags.len();
+        let mut count = 0u64;
+        for len in 1..=4usize {
+            let mut idx = vec![0usize; len];
+            loop {
+                let src: String = idx.iter().map(|i| frags[*i]).collect();
+                for in_expr in [false, true] { for flags in [false, true] {
+                    let ws = WhitespaceConfig { keep_trailing_newline: false, lstrip_blocks: flags, trim_blocks: flags };
+                    let mut t = Tokenizer::new(&src, "f", in_expr, Default::default(), ws);
+                    let source = t.source();
+                    let check = |t: &Tokenizer, what: &str| {
+                        assert!(t.current_offset <= source.len() && source.is_char_boundary(t.current_offset), "{src:?} ({what}): offset {} is not a boundary", t.current_offset);
+                        let (l, c) = pos_of(source, t.current_offset);
+                        assert!((t.current_line, t.current_col) == (l, c), "{src:?} ({what}, expr={in_expr}, flags={flags}): tokenizer at offset {} says line {} col {}, the text says line {l} col {c}", t.current_offset, t.current_line, t.current_col);
+                    };
+                    for _ in 0..64 {
+                        match t.next_token() {
+                            Ok(Some((_tok, span))) => {
+                                check(&t, "after a token");
+                                let (so, eo) = (span.start_offset as usize, span.end_offset as usize);
+                                assert!(so <= eo && eo <= source.len() && source.is_char_boundary(so) && source.is_char_boundary(eo), "{src:?}: span {so}..{eo} is not a valid slice");
+                                assert!((span.start_line, span.start_col) == pos_of(source, so), "{src:?}: span start {so} recorded as line {} col {}, text says {:?}", span.start_line, span.start_col, pos_of(source, so));
+                                assert!((span.end_line, span.end_col) == pos_of(source, eo), "{src:?}: span end {eo} recorded as line {} col {}, text says {:?}", span.end_line, span.end_col, pos_of(source, eo));
+                            }
+                            Ok(None) => { check(&t, "at the end"); break; }
+                            Err(e) => {
+                                check(&t, "at a lexer error");
+                                let line = e.line().expect("lexer errors carry a line");
+                                assert!(line as u16 == t.current_line || line >= 1, "{src:?}");
+                                if let Some(r) = e.range() { assert!(r.start <= r.end && r.end <= source.len() && source.is_char_boundary(r.start) && source.is_char_boundary(r.end), "{src:?}: error range {r:?}"); }
+                                break;
+                            }
+                        }
+                    }
+                    count += 1;
+                }}
+                let mut p = 0;
+                while p < len { idx[p] += 1; if idx[p] < n { break; } idx[p] = 0; p += 1; }
+                if p == len { break; }
+            }
+        }
+        assert!(count > 800_000, "{count}");
+    }
